@@ -191,3 +191,26 @@ def dtype_new_post(C, args, kwargs, out):
         yield ('bad-length-rejected', out.kind == 'exc' and out.value.cls.is_subclass(C.interp.builtins['ValueError']))
     else:
         yield ('no-internal-error', out.kind == 'ret' or out.value.cls.is_subclass(C.interp.builtins['ValueError']))
+
+
+# ---- interpretation side (C02): Bits._get<row>() on the whole bitstring --------------------------------------------------
+from .streams import decode as _decode
+
+
+def _getter_spec(name):
+    def f(C, self):
+        if name == 'bool':
+            # the raw getter is only reachable through the dtype wrapper that checks the single allowed length
+            C.requires(sym.eq(bits(self).n, 1), 'length 1 (checked by allowed_length_checked_get_fn)')
+        return _decode(C, name, bits(self), self.cls)
+    return f
+
+
+for _name, _props in (('uint', {'C02'}), ('int', {'C02'}), ('uintbe', {'C02', 'C18'}), ('intbe', {'C02', 'C18'}),
+                      ('uintle', {'C02', 'C18'}), ('intle', {'C02', 'C18'}), ('hex', {'C02'}), ('oct', {'C02'}), ('bin', {'C02'}),
+                      ('bytes', {'C02', 'C17'}), ('bool', {'C02'})):
+    _fn = {'bin': '_getbin', 'bool': '_getbool'}.get(_name, '_get' + _name)
+    _states = SELF_STATES
+    contract(f'bits.Bits.{_fn}', shapes=_self_shapes(states=_states), props=_props, kind='public',
+             note=f"the {_name} interpretation of the whole bitstring (little-endian = big-endian of the byte-reversed bits); "
+                  "InterpretError for a length the type does not admit")(_getter_spec(_name))
